@@ -22,6 +22,7 @@ def run(chk):
     chk.attempt(r13k, chk)
     chk.attempt(r13l, chk)
     chk.attempt(r13m, chk)
+    chk.attempt(r13n, chk)
     from .c10 import r10e
 
     chk.attempt(r10e, chk, 'R13.g')
@@ -536,3 +537,54 @@ def r13m(chk, rid='R13.m'):
         ok = isinstance(got, str) and all(p >= 0 for p in pos) and pos == sorted(pos) and (only is False or '/*c*/' not in words)
         chk.ob(rid, 'cssutils/serialize.py', 'CSSSerializer.do_css_PropertyValue', f'valuesOnly={only}: every component of the value is written, in order' + (', no top-level comment' if only else ', the comment too'), ok,
                f'written as {got!r}: a component that is missing from the validated text cannot make the declaration invalid (display: var(nope) block is reported valid)')
+
+
+# macros that a later table redefines on purpose, one line of reason each (confirmed by reading profiles.py)
+_WIDENED_MACROS = {
+    'color': 'CSS3_COLOR widens the general colour macro (rgba/hsla/currentcolor): the CSS Color Module extends CSS 2.1 colours for every property',
+    'namedcolor': 'CSS3_COLOR adds the X11/SVG colour names to the sixteen (seventeen) CSS 2.1 ones',
+    'uicolor': 'CSS3_COLOR keeps the system colours under its own definition (deprecated in CSS3, same names)',
+}
+
+
+def r13n(chk, rid='R13.n'):
+    chk.rule(rid, 'one macro namespace, one meaning: the registry merges the macros of every profile into one dictionary where the definition registered last wins, so a '
+                  'macro name that occurs in more than one table (token macros, general macros, the macros of each profile) must denote the same language in each - '
+                  'decided on the automata of the expanded definitions, not on their text. Otherwise registering the later profile silently changes the verdict of '
+                  'every property of the earlier profiles that uses the name (a CSS 2.1 property would no longer follow the CSS 2.1 grammar). Three confirmed '
+                  'exceptions (the colour macros that CSS3_COLOR widens on purpose) are listed with their reason')
+    pt = ProfileTables(chk.repo)
+    env = pt.bulk_macros()
+    defs = {}
+    for k, v in pt.token_macros.items():
+        defs.setdefault(k, []).append(('_TOKEN_MACROS', v))
+    for k, v in pt.general_macros.items():
+        defs.setdefault(k, []).append(('_MACROS', v))
+    for prof, props, mac in pt.registration:
+        for k, v in pt.macros[mac].items():
+            defs.setdefault(k, []).append((mac, v))
+    if len(defs) < 40:
+        raise AnalysisError(f'only {len(defs)} macro names found in profiles.py')
+    multi = {k: v for k, v in defs.items() if len(v) > 1}
+    n = 0
+    for name, lst in sorted(multi.items()):
+        first_tab, first = lst[0]
+        for tab, v in lst[1:]:
+            n += 1
+            if v == first:
+                same, w = True, None
+            else:
+                try:
+                    a = rx.compile_nfa('(?:%s)' % pt.expand(first, env), pt.flags)
+                    b = rx.compile_nfa('(?:%s)' % pt.expand(v, env), pt.flags)
+                    same, w = rx.equivalent(a, b)
+                except Exception as e:  # too large to decide: say so, do not guess
+                    raise AnalysisError(f'macro {name}: cannot compare the definitions of {first_tab} and {tab}: {e!r}')
+            if not same and name in _WIDENED_MACROS:
+                chk.ob(rid, PROFILES, 'macros', f'macro {name}: {tab} redefines {first_tab} on purpose', True, _WIDENED_MACROS[name], trivial=True)
+                continue
+            users = sorted(p for prof, props, mac in pt.registration if mac != tab for p, pv in pt.properties.get(props, {}).items() if isinstance(pv, str) and '{%s}' % name in pv)
+            chk.ob(rid, PROFILES, 'macros', f'macro {name}: the definitions in {first_tab} and {tab} denote one language', same,
+                   f'they differ on {w!r}; the registry keeps one definition per name (the last registered), so the properties of other profiles that use {{{name}}} '
+                   f'({", ".join(users[:4]) or "through other macros"}) change their verdict with it')
+    chk.ob(rid, PROFILES, 'macros', f'{len(defs)} macro names, {len(multi)} defined more than once, {n} pairs compared', True)
